@@ -349,6 +349,53 @@ fn enc_record_msg(msg: &stun_rs::StunMessage, lens: Value, attrs: Value, use_att
            "ctx":ctx,"prefill":prefill,"res":res,"size":size,"tail_ok":tail_ok,"same":same,"have_big":big.is_some()})
 }
 
+/// Custom padding (feature `experiments`): the encoding with padding byte 0xCC differs from the
+/// ordinary one exactly in the padding bytes - those after attribute values and those between the
+/// entries of PASSWORD-ALGORITHMS - and there it is 0xCC instead of 0x00.
+fn custom_padding_ok(msg: &stun_rs::StunMessage) -> Option<bool> {
+    let mut plain = vec![0x11u8; 70000];
+    let mut custom = vec![0x11u8; 70000];
+    let n0 = catch_unwind(AssertUnwindSafe(|| mk_encoder(0).encode(&mut plain, msg))).ok()?.ok()?;
+    let n2 = catch_unwind(AssertUnwindSafe(|| mk_encoder(2).encode(&mut custom, msg))).ok()?.ok()?;
+    if n0 != n2 {
+        return Some(false);
+    }
+    let p = obs::parse(&plain[..n0])?;
+    let mut pads: Vec<usize> = Vec::new();
+    for a in &p.attrs {
+        let vstart = a.off + 4;
+        for j in 0..a.padding.len() {
+            pads.push(vstart + a.value.len() + j);
+        }
+        if a.t == obs::T_PWD_ALGS {
+            // gaps after every entry but the last
+            let v = &a.value;
+            let mut pos = 0usize;
+            while pos + 4 <= v.len() {
+                let l = u16::from_be_bytes([v[pos + 2], v[pos + 3]]) as usize;
+                let end = pos + 4 + l;
+                if end >= v.len() {
+                    break;
+                }
+                for j in 0..obs::pad(l) {
+                    pads.push(vstart + end + j);
+                }
+                pos = end + obs::pad(l);
+            }
+        }
+    }
+    // integrity / fingerprint values depend on the padding bytes before them: compare up to the first
+    let stop = p.attrs.iter().find(|a| [obs::T_MI, obs::T_SHA, obs::T_FP].contains(&a.t)).map(|a| a.off).unwrap_or(n0);
+    for i in 0..stop {
+        let is_pad = pads.contains(&i);
+        let ok = if is_pad { plain[i] == 0x00 && custom[i] == 0xCC } else { plain[i] == custom[i] || (i == 2 || i == 3) };
+        if !ok {
+            return Some(false);
+        }
+    }
+    Some(true)
+}
+
 /// message of zoo attributes (+ optional tail); returns the message and its logical description
 fn zoo_msg(rng: &mut StdRng, id: [u8; 12]) -> Option<(stun_rs::StunMessage, Value)> {
     use stun_rs::attributes::stun::{Fingerprint, MessageIntegrity, MessageIntegritySha256};
@@ -425,8 +472,11 @@ fn cmd_buffers(args: &[String]) {
                     Ok(Ok(need)) => Some(bigbuf[..need].to_vec()),
                     _ => None,
                 };
-                let r = enc_record_msg(&msg, json!([]), c["attrs"].clone(), true, c["buf"].as_u64().unwrap() as usize,
+                let mut r = enc_record_msg(&msg, json!([]), c["attrs"].clone(), true, c["buf"].as_u64().unwrap() as usize,
                                        c["prefill"].as_u64().unwrap_or(0) as u8, &big, id, ctx);
+                if let Some(ok) = custom_padding_ok(&msg) {
+                    r["pad_ok"] = json!(ok);
+                }
                 writeln!(f, "{}", r).unwrap();
                 n += 1;
                 continue;
@@ -480,9 +530,14 @@ fn cmd_buffers(args: &[String]) {
         if need > 1500 { continue; }
         let big = Some(bigbuf[..need].to_vec());
         nmsg += 1;
+        let pad_ok = custom_padding_ok(&msg);
         for buf in (0..=need + 8).filter(|b| need < 200 || *b < 24 || *b + 12 >= need || b % 7 == 0) {
             for prefill in [0x00u8, 0xFF, rng.random()] {
-                writeln!(f, "{}", enc_record_msg(&msg, json!([]), logical.clone(), true, buf, prefill, &big, id, ctx)).unwrap();
+                let mut r = enc_record_msg(&msg, json!([]), logical.clone(), true, buf, prefill, &big, id, ctx);
+                if let Some(ok) = pad_ok {
+                    r["pad_ok"] = json!(ok);
+                }
+                writeln!(f, "{}", r).unwrap();
                 n += 1;
             }
         }
